@@ -31,7 +31,8 @@ func (e *ArrayExp) format(w stringWriter, prefix string) {
 	}
 	p, isMro := w.(*printer)
 	if e.singleLineFormat() && (!isMro ||
-		values[0].getNode() != nil && len(values[0].getNode().Comments) == 0) {
+		values[0].getNode() != nil && len(values[0].getNode().Comments) == 0 &&
+			len(values[0].getNode().scopeComments) == 0) {
 		// Place single-element arrays on a single line.
 		mustWriteRune(w, '[')
 		values[0].format(w, prefix)
@@ -40,7 +41,8 @@ func (e *ArrayExp) format(w stringWriter, prefix string) {
 		mustWriteString(w, "[\n")
 		vindent := prefix + INDENT
 		for _, val := range values {
-			if n := val.getNode(); n != nil && len(n.Comments) > 0 && isMro {
+			if n := val.getNode(); n != nil && isMro &&
+				(len(n.Comments) > 0 || len(n.scopeComments) > 0) {
 				p.printComments(n, vindent)
 			}
 			mustWriteString(w, vindent)
@@ -156,7 +158,8 @@ func (e *MapExp) format(w stringWriter, prefix string) {
 		for _, key := range keys {
 			v := e.Value[key]
 			if isMro && v != nil {
-				if n := v.getNode(); n != nil && len(n.Comments) > 0 {
+				if n := v.getNode(); n != nil &&
+					(len(n.Comments) > 0 || len(n.scopeComments) > 0) {
 					p.printComments(n, vindent)
 				}
 			}
